@@ -44,7 +44,7 @@ def judge_dest_call(ctx, o, pre, post, kind):
                  lambda: {"sig": f"{kind} -> {name}"})
 
 
-def h_dest(ctx, N, mode, imm, prefix="none", limits=2):
+def h_dest(ctx, N, mode, imm, prefix="none", limits=2, pdu_dt=True):
     w = World(ctx)
     mode = ACK if mode == "ack" else UNACK
     sc = DstScenario(ctx, w, mode=mode, cktype=ChecksumType.CRC_32,
@@ -56,7 +56,7 @@ def h_dest(ctx, N, mode, imm, prefix="none", limits=2):
         for o in sc.run_prefix(prefix):
             pre = post = None
             judge_dest_call(ctx, o, snapshot(sc.rig), snapshot(sc.rig), "PREFIX")
-        sc.pdu_dt = True
+        sc.pdu_dt = pdu_dt
     for i in range(N):
         alphabet = STATE_EVENTS[mode] + (LAST_ONLY if i == N - 1 else [])
         pre = snapshot(sc.rig)
@@ -147,6 +147,10 @@ def plan(tier):
             specs.append(Spec(f"dest/{mode}/after-{pre}/limits={lim}/N={n - 2}", "vf.harness.c10:h_dest",
                               {"N": n - 2, "mode": mode, "imm": True, "prefix": pre, "limits": lim},
                               twin_share=0.05))
+    # File Data first (symbolic offset and length, possibly empty), then four open events
+    specs.append(Spec("dest/ack/after-fd_first/N=4", "vf.harness.c10:h_dest",
+                      {"N": 4, "mode": "ack", "imm": True, "prefix": "fd_first", "limits": 2, "pdu_dt": False},
+                      twin_share=0.02))
     t = 2 if tier == "quick" else 3
     for mode in ("ack", "unack"):
         for pre in SRC_PREFIXES:
